@@ -109,4 +109,44 @@ theorem rwLearn_alpha_zero (β₁ β₂ lam : R) (W : κ → ι → R) (es : Lis
       funext o; simp only [rwStep]; exact rwRow_alpha_zero β₁ β₂ lam (W o) e.cues _
     rw [this, ih]
 
+/-- **per-cue α = 0**: a cue whose learning rate is 0 keeps its weight in every
+    row, whatever the other cues' learning rates are -/
+theorem rwLearn_alpha_zero_cue (α : ι → R) (β₁ β₂ lam : R) (W : κ → ι → R) (es : List (Event ι κ))
+    (o : κ) (c : ι) (h : α c = 0) : rwLearn α β₁ β₂ lam W es o c = W o c := by
+  induction es generalizing W with
+  | nil => rfl
+  | cons e es ih =>
+    rw [rwLearn_cons, ih]
+    simp only [rwStep, rwRow_apply, h, zero_mul, mul_zero, add_zero]
+
+/-- **β₂ = 0, sequence form**: the events that do not contain outcome `o` can be
+    removed from the sequence without changing row `o` -/
+theorem rwLearn_beta2_zero_filter (α : ι → R) (β₁ lam : R) (W : κ → ι → R) (es : List (Event ι κ)) (o : κ) :
+    rwLearn α β₁ 0 lam W es o
+      = rwLearn α β₁ 0 lam W (es.filter (fun e => decide (o ∈ e.outcomes))) o := by
+  rw [rwLearn_row, rwLearn_row]
+  generalize W o = r
+  induction es generalizing r with
+  | nil => rfl
+  | cons e es ih =>
+    by_cases h : o ∈ e.outcomes
+    · rw [List.filter_cons_of_pos (by simpa using h)]
+      simp only [List.foldl_cons]
+      exact ih _
+    · rw [List.filter_cons_of_neg (by simpa using h)]
+      simp only [List.foldl_cons, h, decide_false]
+      rw [rwRow_beta2_zero]
+      exact ih _
+
+/-- … in particular a row whose outcome occurs in no event is untouched -/
+theorem rwLearn_beta2_zero_absent (α : ι → R) (β₁ lam : R) (W : κ → ι → R) (es : List (Event ι κ)) (o : κ)
+    (h : ∀ e ∈ es, o ∉ e.outcomes) : rwLearn α β₁ 0 lam W es o = W o := by
+  rw [rwLearn_beta2_zero_filter]
+  have : es.filter (fun e => decide (o ∈ e.outcomes)) = [] := by
+    apply List.filter_eq_nil_iff.mpr
+    intro e he
+    simpa using h e he
+  rw [this]
+  rfl
+
 end Pyndl
